@@ -45,3 +45,19 @@ Definition item_is_bang (e : Z * Z * pyval) : bool :=
   match starts_squash (snd e) with Ok true => true | _ => false end.
 Definition bang_items (g : graph) : list (Z * Z) :=
   map (fun e => (fst (fst e), snd (fst e))) (filter item_is_bang (edge_attr_items g squash_edge_attr)).
+
+(** a decidable sufficient test for [wf_graph] (sound: SquashProofs.wf_graphb_sound), evaluated on every
+    recorded case by ./check C10 *)
+Fixpoint nodupz (l : list Z) : bool :=
+  match l with [] => true | x :: r => negb (existsb (Z.eqb x) r) && nodupz r end.
+Definition wf_graphb (g : graph) : bool :=
+  nodupz (node_keys g) &&
+  forallb (fun n => forallb (fun wa : Z * attrs => has_node g (fst wa) && has_edge g (fst wa) (nk n)
+                                                    && negb (Z.eqb (fst wa) (nk n))) (nadj n)) g.
+(** every `bonding` edge attribute is a descriptor pair (decidable form of SquashProofs.bondings_ok) *)
+Definition bondings_okb (g : graph) : bool :=
+  forallb (fun e => match starts_squash (snd e) with Ok _ => true | Err _ => false end) (edge_attr_items g squash_edge_attr).
+(** every node carries list-valued fragid and mapping (decidable form of SquashProofs.typed_g) *)
+Definition typed_gb (g : graph) : bool :=
+  forallb (fun n => match aget (S "fragid") (na n), aget (S "mapping") (na n) with
+                    | Some (VList _), Some (VList _) => true | _, _ => false end) g.
